@@ -220,7 +220,7 @@ Section Law.
            g_err_folder := filter (fun p => negb (has_lua_suffix p)) (j_ignore_err j) ++ [server_meta];
            g_err_file := filter has_lua_suffix (j_ignore_err j);
            g_file_types := ft_of_list (j_file_types j);
-           g_has_entry := j_has_entry j |}.
+           g_has_entry := j_has_entry j; g_var_map := true |}.
   Proof.
     unfold read_json. destruct (_ && _); [|discriminate]. intros H. apply Ok_inj in H. subst g. reflexivity.
   Qed.
@@ -280,13 +280,16 @@ Section Sessions.
       + rewrite Hj in H. cbn [rbind] in H. apply IH in H; [exact H|exact Hj].
   Qed.
 
-  Lemma session_json jc c cs s :
-    session fixed re_ok (Some jc) c cs = Ok s -> read_json fixed re_ok g_default jc = Ok (s_g s).
+  Lemma session_json jc c lr cs s :
+    session fixed re_ok (Some jc) c lr cs = Ok s -> read_json fixed re_ok g_default jc = Ok (s_g s).
   Proof.
     unfold session, init. destruct (read_json fixed re_ok g_default jc) as [g| |] eqn:Hr; cbn [rbind]; try discriminate.
+    pose proof (read_json_inv fixed re_ok g_default jc g Hr) as Hg.
+    assert (Hvm : g_var_map g = true) by (rewrite Hg; reflexivity).
+    rewrite Hvm. cbn [negb]. rewrite andb_false_r. cbn [rbind].
     intros H. apply changes_json in H.
     - cbn [s_g] in H. rewrite H. reflexivity.
-    - cbn [s_g]. apply read_json_inv in Hr. subst g. reflexivity.
+    - cbn [s_g]. rewrite Hg. reflexivity.
   Qed.
 
   Definition from_client (g : gconf) (c : client_cfg) : Prop :=
@@ -312,13 +315,14 @@ Section Sessions.
       cbn [s_g]. exists (s_g s). auto.
   Qed.
 
-  Lemma session_client c cs s :
+  Lemma session_client c lr cs s :
     client_wf c = true -> forallb client_wf cs = true ->
-    session fixed re_ok None c cs = Ok s ->
+    session fixed re_ok None c lr cs = Ok s ->
     from_client (s_g s) (effective_client c cs) /\ client_wf (effective_client c cs) = true.
   Proof.
     intros Hwf Hwfs. unfold session, init.
     destruct (handle_flags fixed re_ok g_default c) as [g1| |] eqn:H0; cbn [rbind]; try discriminate.
+    destruct (lr && negb (g_var_map g1)); cbn [rbind]; try discriminate.
     assert (Hfc : from_client g1 c) by (exists g_default; split; [apply cinv_default|exact H0]).
     destruct cs as [|c1 cs]; cbn [changes effective_client].
     - intros H. apply Ok_inj in H. subst. cbn [s_g]. auto.
@@ -327,14 +331,14 @@ Section Sessions.
       intros H. apply (changes_client cs _ c s) in H; auto.
   Qed.
 
-  Theorem session_realises j c cs s :
+  Theorem session_realises j c lr cs s :
     json_wf j = true -> client_wf c = true -> forallb client_wf cs = true ->
-    session fixed re_ok j c cs = Ok s ->
+    session fixed re_ok j c lr cs = Ok s ->
     realises re_ok re_match (s_g s) (session_intent j c cs).
   Proof.
     intros Hj Hwf Hwfs H. destruct j as [jc|]; unfold session_intent, intent_of.
     - apply session_json in H. exact (realises_json fixed re_ok re_match g_default jc (s_g s) Hj H).
-    - destruct (session_client c cs s Hwf Hwfs H) as ((g0 & Hc & Hh) & Hwfe).
+    - destruct (session_client c lr cs s Hwf Hwfs H) as ((g0 & Hc & Hh) & Hwfe).
       exact (realises_client fixed re_ok re_match g0 _ (s_g s) Hwfe Hc Hh).
   Qed.
 
@@ -351,16 +355,16 @@ Section Sessions.
 
   Variable raw : list path -> list diag.
 
-  Theorem filter_law root files j c cs s :
+  Theorem filter_law root files j c lr cs s :
     json_wf j = true -> client_wf c = true -> forallb client_wf cs = true ->
-    session fixed re_ok j c cs = Ok s ->
+    session fixed re_ok j c lr cs = Ok s ->
     forallb (diag_guard re_ok re_match (s_g s) (session_intent j c cs) root)
             (raw (filter (is_handled re_ok re_match (s_g s)) files)) = true ->
     shown re_ok re_match raw (s_g s) root files
       = spec_shown re_ok re_match raw (session_intent j c cs) root files.
   Proof.
     intros Hj Hwf Hwfs H Hg.
-    pose proof (session_realises j c cs s Hj Hwf Hwfs H) as Hr.
+    pose proof (session_realises j c lr cs s Hj Hwf Hwfs H) as Hr.
     unfold shown, spec_shown.
     assert (Hf : filter (is_handled re_ok re_match (s_g s)) files
                  = filter (spec_handled re_ok re_match (session_intent j c cs)) files).
@@ -371,14 +375,14 @@ Section Sessions.
 
   (* and whatever the guard says: what is shown is always a subset of what the intent allows, except for the
      replaced duplicate rule (json_wf) - the code never shows a diagnostic the configuration excludes *)
-  Theorem never_shows_excluded root j c cs s d :
+  Theorem never_shows_excluded root j c lr cs s d :
     json_wf j = true -> client_wf c = true -> forallb client_wf cs = true ->
-    session fixed re_ok j c cs = Ok s -> type_ok d = true ->
+    session fixed re_ok j c lr cs = Ok s -> type_ok d = true ->
     visible re_ok re_match (s_g s) root d = true ->
     spec_excluded re_ok re_match (session_intent j c cs) root d = false.
   Proof.
     intros Hj Hwf Hwfs H Hty Hv.
-    destruct (session_realises j c cs s Hj Hwf Hwfs H) as (Hr & _).
+    destruct (session_realises j c lr cs s Hj Hwf Hwfs H) as (Hr & _).
     rewrite (Hr root d Hty) in Hv.
     destruct (spec_excluded re_ok re_match (session_intent j c cs) root d); [discriminate|reflexivity].
   Qed.
@@ -457,18 +461,18 @@ Section Routes.
 
   (* the same client configuration c delivered (1) as initializationOptions, (2) by a later settings change after an
      arbitrary earlier history, (3) as the equivalent luahelper.json (whatever the client then sends) *)
-  Theorem same_by_all_routes c c0 csync cmid cany cs_any s1 s2 s3 :
+  Theorem same_by_all_routes c c0 csync cmid cany cs_any l1 l2 l3 s1 s2 s3 :
     client_wf c = true -> client_wf c0 = true -> client_wf csync = true -> forallb client_wf cmid = true ->
-    session fixed re_ok None c [] = Ok s1 ->
-    session fixed re_ok None c0 (csync :: cmid ++ [c]) = Ok s2 ->
-    session fixed re_ok (Some (to_json c)) cany cs_any = Ok s3 ->
+    session fixed re_ok None c l1 [] = Ok s1 ->
+    session fixed re_ok None c0 l2 (csync :: cmid ++ [c]) = Ok s2 ->
+    session fixed re_ok (Some (to_json c)) cany l3 cs_any = Ok s3 ->
     obs_eq (s_g s1) (s_g s2) /\ obs_eq (s_g s1) (s_g s3).
   Proof.
     intros Hwf Hwf0 Hwfs Hwfm H1 H2 H3.
-    destruct (session_client fixed re_ok c [] s1 Hwf eq_refl H1) as (F1 & _). cbn [effective_client] in F1.
+    destruct (session_client fixed re_ok c l1 [] s1 Hwf eq_refl H1) as (F1 & _). cbn [effective_client] in F1.
     assert (Hall : forallb client_wf (csync :: cmid ++ [c]) = true).
     { cbn [forallb]. rewrite Hwfs. rewrite forallb_app. rewrite Hwfm. cbn [forallb]. rewrite Hwf. reflexivity. }
-    destruct (session_client fixed re_ok c0 _ s2 Hwf0 Hall H2) as (F2 & _).
+    destruct (session_client fixed re_ok c0 l2 _ s2 Hwf0 Hall H2) as (F2 & _).
     cbn [effective_client] in F2. rewrite last_last in F2.
     split.
     - exact (from_client_obs (s_g s1) (s_g s2) c Hwf F1 F2).
@@ -484,8 +488,8 @@ Section Routes.
   Qed.
 
   (* luahelper.json present: nothing the client sends changes the outcome *)
-  Theorem json_ignores_client jc c c' cs cs' s s' :
-    session fixed re_ok (Some jc) c cs = Ok s -> session fixed re_ok (Some jc) c' cs' = Ok s' -> s_g s = s_g s'.
+  Theorem json_ignores_client jc c c' l l' cs cs' s s' :
+    session fixed re_ok (Some jc) c l cs = Ok s -> session fixed re_ok (Some jc) c' l' cs' = Ok s' -> s_g s = s_g s'.
   Proof.
     intros H H'. apply session_json in H. apply session_json in H'. rewrite H in H'. apply Ok_inj in H'. exact H'.
   Qed.
@@ -497,10 +501,12 @@ Section Faults.
   Variable re_ok : path -> bool.
 
   Lemma handle_flags_ok_ex fixed g c :
-    compile_all fixed re_ok (c_ignore_err c) = true -> exists g', handle_flags fixed re_ok g c = Ok g'.
+    compile_all fixed re_ok (c_ignore_err c) = true ->
+    exists g', handle_flags fixed re_ok g c = Ok g' /\ (hd false (c_flags c) = true -> g_var_map g' = true).
   Proof.
     intros H. unfold handle_flags. rewrite H.
-    destruct (c_flags c) as [|m fl]; [eexists; reflexivity|]. destruct m; eexists; reflexivity.
+    destruct (c_flags c) as [|m fl]; [eexists; split; [reflexivity|cbn [hd]; discriminate]|].
+    destruct m; eexists; (split; [reflexivity|cbn [hd g_var_map]; congruence]).
   Qed.
 
   Lemma changes_ok_ex fixed : forall cs s,
@@ -512,7 +518,7 @@ Section Faults.
     - cbn [forallb] in H. apply andb_true_iff in H as [Hc H].
       unfold change. destruct (negb (s_changed s)); cbn [rbind]; [apply IH; exact H|].
       destruct (g_json (s_g s)); cbn [rbind]; [apply IH; exact H|].
-      destruct (handle_flags_ok_ex fixed (s_g s) c Hc) as (g' & Hg). rewrite Hg. cbn [rbind]. apply IH; exact H.
+      destruct (handle_flags_ok_ex fixed (s_g s) c Hc) as (g' & Hg & _). rewrite Hg. cbn [rbind]. apply IH; exact H.
   Qed.
 
   Definition session_patterns_ok (fixed : bool) (j : option json_cfg) (c : client_cfg) (cs : list client_cfg) : bool :=
@@ -521,30 +527,49 @@ Section Faults.
     | None => compile_all fixed re_ok (c_ignore_err c)
     end && forallb (fun c => compile_all fixed re_ok (c_ignore_err c)) cs.
 
-  Theorem session_no_fault fixed j c cs :
-    session_patterns_ok fixed j c cs = true -> exists s, session fixed re_ok j c cs = Ok s.
+  (* LocalRun is harmless with luahelper.json or with the master switch on *)
+  Definition local_ok (j : option json_cfg) (c : client_cfg) (lr : bool) : bool :=
+    negb lr || match j with Some _ => true | None => hd false (c_flags c) end.
+
+  Theorem session_no_fault fixed j c lr cs :
+    session_patterns_ok fixed j c cs = true -> local_ok j c lr = true ->
+    exists s, session fixed re_ok j c lr cs = Ok s.
   Proof.
-    unfold session_patterns_ok. intros H. apply andb_true_iff in H as [H0 Hcs].
+    unfold session_patterns_ok, local_ok. intros H Hl. apply andb_true_iff in H as [H0 Hcs].
     unfold session, init. destruct j as [jc|].
-    - unfold read_json. rewrite H0. cbn [rbind]. apply changes_ok_ex. exact Hcs.
-    - destruct (handle_flags_ok_ex fixed g_default c H0) as (g' & Hg). rewrite Hg. cbn [rbind].
+    - unfold read_json. rewrite H0. cbn [rbind g_var_map negb]. rewrite andb_false_r. cbn [rbind].
       apply changes_ok_ex. exact Hcs.
+    - destruct (handle_flags_ok_ex fixed g_default c H0) as (g' & Hg & Hvm). rewrite Hg. cbn [rbind].
+      assert (Hz : lr && negb (g_var_map g') = false).
+      { destruct lr; [|reflexivity]. cbn [negb orb] in Hl. rewrite (Hvm Hl). reflexivity. }
+      rewrite Hz. cbn [rbind]. apply changes_ok_ex. exact Hcs.
   Qed.
 
-  (* the repaired variant never faults *)
-  Theorem fixed_never_faults j c cs : exists s, session true re_ok j c cs = Ok s.
+  (* the repaired variant (of the regexp defect) never faults where LocalRun is harmless *)
+  Theorem fixed_never_faults j c lr cs :
+    local_ok j c lr = true -> exists s, session true re_ok j c lr cs = Ok s.
   Proof.
-    apply session_no_fault. unfold session_patterns_ok, compile_all. cbn [orb].
+    intros Hl. apply session_no_fault; [|exact Hl]. unfold session_patterns_ok, compile_all. cbn [orb].
     destruct j; cbn [andb]; induction cs; cbn [forallb andb]; auto.
   Qed.
 
+  (* LocalRun with the master switch off: initialize writes into the nil map IgnoreVarMap *)
+  Theorem local_master_off_faults fixed c fl :
+    c_flags c = false :: fl -> compile_all fixed re_ok (c_ignore_err c) = true ->
+    init fixed re_ok None c true = Fault NilDeref.
+  Proof.
+    intros Hf Hc. unfold init, handle_flags. rewrite Hc, Hf. cbn [rbind g_var_map g_default andb negb]. reflexivity.
+  Qed.
+
   (* the code as it is: a pattern that does not compile in IgnoreFileOrDirError kills initialize *)
-  Theorem init_faults_iff c :
-    init false re_ok None c = Fault Regexp <-> forallb re_ok (c_ignore_err c) = false.
+  Theorem init_faults_iff c lr :
+    init false re_ok None c lr = Fault Regexp <-> forallb re_ok (c_ignore_err c) = false.
   Proof.
     unfold init, handle_flags, compile_all. cbn [orb].
     destruct (forallb re_ok (c_ignore_err c)); cbn [rbind].
-    - split; [|discriminate]. destruct (c_flags c) as [|m fl]; [discriminate|]. destruct m; discriminate.
+    - split; [|discriminate].
+      destruct (c_flags c) as [|m fl]; [|destruct m]; cbn [rbind];
+        match goal with |- context [if ?b then _ else _] => destruct b end; discriminate.
     - split; reflexivity.
   Qed.
 
@@ -585,15 +610,15 @@ Section Plain.
   Variable re_match : path -> path -> bool.
   Variable raw : list path -> list diag.
 
-  Theorem filter_law_plain root files j c cs s :
+  Theorem filter_law_plain root files j c lr cs s :
     json_wf j = true -> client_wf c = true -> forallb client_wf cs = true ->
-    session fixed re_ok j c cs = Ok s ->
+    session fixed re_ok j c lr cs = Ok s ->
     special_gate_ok (s_g s) = true ->
     forallb plain_diag (raw (filter (is_handled re_ok re_match (s_g s)) files)) = true ->
     shown re_ok re_match raw (s_g s) root files
       = spec_shown re_ok re_match raw (session_intent j c cs) root files.
   Proof.
-    intros Hj Hwf Hwfs H Hg Hp. apply (filter_law fixed); try assumption.
+    intros Hj Hwf Hwfs H Hg Hp. apply (filter_law fixed _ _ _ _ _ _ _ lr); try assumption.
     rewrite forallb_forall in *. intros d Hin. apply plain_guard; [exact Hg|apply Hp; exact Hin].
   Qed.
 End Plain.
@@ -617,6 +642,8 @@ Definition w_gate : client_cfg := mk_client special_types [] [].
 Definition w_coupled : client_cfg := mk_client [4] [] [].
 Definition w_all_on : client_cfg := mk_client [] [] [].
 Definition w_bad_regex : client_cfg := mk_client [] [] [[40]].
+(* master switch off (and the client says LocalRun) *)
+Definition w_master_off : client_cfg := mk_client [0] [] [].
 Definition w_dup_rule : json_cfg :=
   {| j_show := 1; j_ignore_types := []; j_open_types := []; j_ignore_handle := []; j_ignore_err := [];
      j_file_types := [(a_lua, [4]); (a_lua, [5])]; j_has_entry := false |}.
